@@ -189,6 +189,12 @@ func scenC13(r *Run) {
 						r.Fail("C13:no-too-large-signal:"+kind+":chunked", "limit %d, chunked body of %d bytes answered with status 200", L, size)
 						return
 					}
+					// over HTTP the request-too-large error is status 413: that is what the hprose clients turn into
+					// ErrRequestEntityTooLarge, any other refusal reaches the caller as something else
+					if o.rawStatus != "413" {
+						r.Fail("C13:no-too-large-error:"+kind+":chunked", "limit %d, chunked body of %d bytes refused with status %q (err %v), not 413 Request Entity Too Large", L, size, o.rawStatus, o.err)
+						return
+					}
 				} else if dio != 1 {
 					r.Fail("C13:within-limit-not-processed:"+kind+":chunked", "limit %d, chunked body of %d bytes: IO plugin ran %d times (status %q err %v)", L, size, dio, o.rawStatus, o.err)
 					return
